@@ -137,6 +137,7 @@ def main():
                 out["message"] = m.message
         out["status"] = status
         out["clause"] = getattr(h, "LAST_FAIL", None) if status == "refuted" else None
+        out["known"] = list(getattr(h, "FAIL_KNOWN", [])) if status == "refuted" else []
     except BaseException as e:  # noqa
         out["status"] = "error"
         out["message"] = "%s: %s" % (type(e).__name__, e)
